@@ -398,3 +398,28 @@ Proof.
   - apply nth_upd_same. lia.
   - intros j N. apply nth_upd_other. congruence.
 Qed.
+
+(* in-place scaling of an ITEM changes that item's conversion only: its siblings in the set are spared *)
+Lemma item_mul_spares_siblings_lemma xs i k xs' :
+  sstep xs (SItemMul i k) = Ok xs' ->
+  nthq xs' i = nthq xs i * k /\ (forall j, j <> i -> nthq xs' j = nthq xs j) /\ length xs' = length xs.
+Proof.
+  unfold sstep. destruct (Nat.ltb i (length xs)) eqn:E; [|discriminate].
+  apply Nat.ltb_lt in E. intros H; inversion H; subst. repeat split.
+  - apply nth_upd_same; auto.
+  - intros j N. apply nth_upd_other. congruence.
+  - apply upd_length.
+Qed.
+
+Lemma item_div_spares_siblings_lemma xs i k xs' :
+  sstep xs (SItemDiv i k) = Ok xs' ->
+  ~ k == 0 /\ nthq xs' i = nthq xs i * (1 / k) /\ (forall j, j <> i -> nthq xs' j = nthq xs j)
+  /\ length xs' = length xs.
+Proof.
+  unfold sstep. destruct (qzerob k) eqn:Z; [discriminate|]. apply qzerob_false in Z.
+  destruct (Nat.ltb i (length xs)) eqn:E; [|discriminate].
+  apply Nat.ltb_lt in E. intros H; inversion H; subst. repeat split; auto.
+  - apply nth_upd_same; auto.
+  - intros j N. apply nth_upd_other. congruence.
+  - apply upd_length.
+Qed.
